@@ -610,9 +610,9 @@ PROPS = {
      'level_note': 'The decision-diagram recursion of saturation (saturate_1 / recFire, their compute-table entries, the explorer objects) is NOT modelled: for '
                    'saturation the theorems cover the split and scheduling independence, the rest is the differential tie. Of the defects the family found, F4 (stale satfire entries), F6, F8 (NOFS with a '
                    'non-fully-reduced MT-integer result forest), F9 (BFS with the initial set in another forest than the result) and F10 (saturation on MT-integer sets '
-                   'with a distance-0 state) are repaired in /repo (fix: commits) and run unsteered (--allow F4,F8,F9,F10); the two that remain recorded - F5 '
-                   'quasi-reduced relation forests, F7 fully-reduced relation forests with off-diagonal edges over the common diagonal - are steered around by the '
-                   'generator (harness option --allow lifts the steering) '
+                   'with a distance-0 state) and F7 / F5(b) (wrong split of fully- / quasi-reduced relation forests: too few states) are repaired in /repo (fix: commits, last 709bd2b) and run '
+                   'unsteered (--allow F4,F7,F8,F9,F10); the one that remains recorded - F5(a), the crash of saturation on quasi-reduced relation forests - is steered '
+                   'around by the generator (harness option --allow lifts the steering) '
                    "and re-probed on every run in forked children at cases 900000+; the probes' diffs are matched by known_findings.jsonl. The steering predicates "
                    '(f6Trigger, f7Trigger in harness/fam_reach.cc) are themselves validated on every run: outside them every saturation result must match the '
                    'specification.',
